@@ -92,6 +92,17 @@ pub fn events(thorough: bool) -> Vec<Ev> {
         v.push(Ev { name, run: sim, banks });
     }
     // the same wire bank name twice: a data-less (16-byte suppressed) packet and a full one; and twice data-less
+    // the same with a data-less packet whose module / channel bytes agree with the bank name (channel 128 + 0)
+    let dataless = |ch: u8, baseline: i16| -> Vec<u8> {
+        let mut v = vec![1u8, 3, 0, 4, 0, 128 + ch];
+        v.extend(152u16.to_be_bytes());
+        v.extend([0, 0, 0, 7]);
+        v.extend(0x2000u16.to_be_bytes());
+        v.extend(baseline.to_be_bytes());
+        v
+    };
+    v.push(Ev { name: "one wire bank name twice: consistent data-less packet and full packet", run: sim, banks: vec![trg(2), ("C090".into(), dataless(0, 3000)), wire("09", 0, 150, 0), wire("10", 3, 150, 1)] });
+    v.push(Ev { name: "one wire bank name three times: full, consistent data-less twice", run: sim, banks: vec![trg(2), wire("09", 0, 150, 0), ("C090".into(), dataless(0, 3000)), ("C090".into(), dataless(0, -3))] });
     v.push(Ev { name: "one wire bank name twice: data-less packet and full packet", run: sim, banks: vec![trg(2), ("C090".into(), crate::props::c02::short_packet(0x2000, 0, 699)), wire("09", 0, 150, 0), wire("10", 3, 150, 1)] });
     v.push(Ev { name: "one wire bank name three times: full, data-less, data-less", run: sim, banks: vec![trg(2), wire("09", 0, 150, 0), ("C090".into(), crate::props::c02::short_packet(0x2000, 0, 699)), ("C090".into(), crate::props::c02::short_packet(0x2000, -3, 100))] });
     // a PWB message in which one chunk id arrives twice with different (CRC-valid) payloads of the same length
